@@ -8,7 +8,7 @@ import sqlite3
 from ..boot import CLOCK
 from ..core import HarnessError, derive_seed
 from ..e1 import Case, CommandDriver, Monitor, run_case
-from ..gen import Atom, Task, atoms
+from ..gen import Atom, Task, atoms, msg_of
 from .common import (
     RATES_NONE, RATES_SCHED, base_stats, sample_of, swarm_gkw,
     unexpected_stop, viol_dicts,
@@ -50,7 +50,7 @@ TIERS = {
     'quick': {'n': 600, 'budget_s': 420, 'chunk': 8},
     'thorough': {'n': 12000, 'budget_s': 3000, 'chunk': 20},
 }
-EXPECTED_PROBES = ['reload_done', 'reload_same', 'reload_extended',
+EXPECTED_PROBES = ['reload_adds_prereq_on_fresh_output', 'reload_done', 'reload_same', 'reload_extended',
                    'reload_shrunk', 'reload_invalid_rejected',
                    'new_prereq_on_pooled_task', 'new_prereq_satisfied_from_db',
                    'orphan_waiting_removed', 'orphan_started_kept',
@@ -193,9 +193,10 @@ def gen_cmds(rng, prog, model):
                      'name': 'pause', 'kwargs': {}})
         paused = True
     for k in range(rng.randint(1, 2)):
-        cmds.append({'iter': it, 'slot': rng.randint(0, 1),
+        dyn = rng.random() if rng.random() < 0.4 else None
+        cmds.append({'iter': it, 'slot': 1 if dyn else rng.randint(0, 1),
                      'name': 'reload_workflow', 'kwargs': {},
-                     'variant': k})
+                     'variant': k, 'dyn': dyn})
         it += rng.randint(1, 10)
     cmds.sort(key=lambda c: (c['iter'], c['slot']))
     if paused:
@@ -215,6 +216,9 @@ class Driver(CommandDriver):
     def resolve(self, h, c):
         if c['name'] == 'reload_workflow':
             kind, new, text = self.variants[c.get('variant', 0)]
+            dyn = self.dynamic_variant(h, c) if c.get('dyn') else None
+            if dyn is not None:
+                kind, new, text = dyn
             with open(os.path.join(h.run_dir, 'flow.cylc'), 'w') as fh:
                 fh.write(text)
             self.watch.pending_variant = (kind, new)
@@ -227,6 +231,46 @@ class Driver(CommandDriver):
             kw['tasks'] = [pool[int(c['u'] * len(pool)) % len(pool)]]
             return kw
         return c['kwargs']
+
+
+    def dynamic_variant(self, h, c):
+        """Extend the definition with a prerequisite on an output whose
+        message the scheduler has received in this very iteration (so it is
+        recorded but possibly not yet flushed to the database), for a task
+        that is waiting in the pool at a later cycle point."""
+        res = self.watch.res
+        prog = res.prog
+        now = CLOCK.t
+        fresh = [(k, m) for t, k, m in h.world.msg_log
+                 if abs(t - now) < 1e-6 and k[1] in prog.tasks]
+        if not fresh:
+            return None
+        waiting = sorted(
+            (i.tdef.name, prog.ppoint(str(i.point)))
+            for i in h.schd.pool.get_tasks()
+            if i.state.status == 'waiting' and i.tdef.name in prog.tasks)
+        u = c['dyn']
+        key, msg = fresh[int(u * len(fresh)) % len(fresh)]
+        xp = prog.ppoint(key[0])
+        out = msg[4:] if msg.startswith('msg ') else msg.split('/')[0]
+        if out not in ('started', 'succeeded', 'failed') and (
+                out not in prog.tasks[key[1]].customs):
+            return None
+        cands = [(t, p) for t, p in waiting if p - xp >= 1 and p - xp <= 2]
+        if not cands:
+            return None
+        t, p = cands[int(u * 7919) % len(cands)]
+        new = copy.deepcopy(prog)
+        secs = [s_ for s_ in new.sections
+                if p in s_.pset and any(t in tg for _e, tg in s_.lines)]
+        if not secs:
+            return None
+        secs[0].lines.append(
+            (('atom', Atom(key[1], out, 'rel', -(p - xp))), [t]))
+        if out == 'failed':
+            new.tasks[key[1]].opt['succeeded'] = True
+        res.sim.probe('reload_adds_prereq_on_fresh_output')
+        return 'ext_fresh', new, new.render()
 
 
 class ReloadWatch(Monitor):
@@ -286,7 +330,14 @@ class ReloadWatch(Monitor):
                     d = json.loads(outs) if outs else {}
                 except ValueError:
                     d = {}
-                msgs = set(d.values()) if isinstance(d, dict) else set(d)
+                # {trigger: message}; a forced completion is recorded as
+                # {trigger: "(manually completed)"}: go by the trigger
+                if isinstance(d, dict):
+                    msgs = {msg_of(name, trig) for trig in d}
+                    if any(v == '(manually completed)' for v in d.values()):
+                        msgs.add('(forced)')
+                else:
+                    msgs = set(d)
                 try:
                     fs = set(json.loads(fl))
                 except ValueError:
@@ -363,8 +414,13 @@ class ReloadWatch(Monitor):
                 res.sim.probe('new_prereq_on_pooled_task')
                 rec = any(fs & b['flows'] and key[2] in msgs
                           for fs, msgs in dbo.get((key[0], key[1]), []))
-                if any(k[0] == key[0] and k[1] == key[1] and m == key[2]
-                       for _t, k, m in self.h.world.msg_log):
+                up0 = before.get(f'{key[0]}/{key[1]}')
+                up_flows = set(up0['flows']) if up0 is not None else set()
+                for fs, _m in dbo.get((key[0], key[1]), []):
+                    up_flows |= fs
+                if (not up_flows or up_flows & b['flows']) and any(
+                        k[0] == key[0] and k[1] == key[1] and m == key[2]
+                        for _t, k, m in self.h.world.msg_log):
                     # the scheduler has received that message (it may be
                     # neither in the database yet nor, if the task has since
                     # completed, in the pool)
@@ -380,11 +436,21 @@ class ReloadWatch(Monitor):
                     res.sim.probe('new_prereq_on_output_of_pooled_task')
                 if rec:
                     res.sim.probe('new_prereq_satisfied_from_db')
+                preds = []
+                rows = [(fs, m) for fs, m in dbo.get((key[0], key[1]), [])
+                        if fs & b['flows']]
+                if rec and not av and (
+                        len(rows) > 1 or any('(forced)' in m and key[2] in m
+                                             for _fs, m in rows)):
+                    # TaskPool.check_task_output looks at the first row whose
+                    # flows overlap only, and compares messages although a
+                    # forced completion is stored without its message
+                    preds.append('output_forced_or_in_another_db_row')
                 if bool(av) != rec:
                     res.violate('new_prerequisite_wrongly_' + (
                         'satisfied' if av else 'unsatisfied'), dict(
                             detail0, task=ident, prerequisite='/'.join(key),
-                            recorded=rec, after=str(av),
+                            recorded=rec, after=str(av), predicates=preds,
                             db_rows=[(sorted(fs), sorted(m)) for fs, m in
                                      dbo.get((key[0], key[1]), [])]))
             if set(b['prereqs']) - set(a['prereqs']):
